@@ -423,6 +423,8 @@ func (net *Net) deliver(j *Node, o offer) {
 // lacks, until nobody lacks anything (gossip reached a fixpoint). Partitions are
 // ignored (the synchronous phase reconnects everybody). Returns the number of
 // deliveries.
+var debugFix = os.Getenv("VERIF_DEBUG_ATTACK") != ""
+
 func (net *Net) Fixpoint(maxIter int) (int, bool) { return net.fixpoint(maxIter, true) }
 
 // FixpointPartitioned is Fixpoint that respects the current partition.
@@ -462,6 +464,11 @@ func (net *Net) fixpoint(maxIter int, all bool) (int, bool) {
 				j.DeliverBatch(byPeer[p], p)
 				total += len(byPeer[p])
 				net.Steps += len(byPeer[p])
+			}
+			if debugFix {
+				for _, o := range offs {
+					net.note("  fix %d<-%d %s", j.Idx, o.From, msgLabel(o.Msg))
+				}
 			}
 			net.note("fix %d n=%d", j.Idx, len(offs))
 			net.observe(j)
